@@ -303,6 +303,7 @@ def manifest_protection(item):
     """ContentProtection elements of a manifest vs the DRM selection and vs the init segment of the same request."""
     template, mode, drm, sel = item[:4]
     stream = item[4] if len(item) > 4 else 'bbb'
+    ver = item[5] if len(item) > 5 else None
     w = W.World.shared()
     w.begin_item()
     acc = core.Acc()
@@ -310,12 +311,14 @@ def manifest_protection(item):
     q = {'drm': drm}
     if mode == 'live':
         q['depth'] = '30'
+    if ver:
+        q['playready__version'] = ver
     url = crawl.manifest_url(mode, stream, template, q)
     r = w.get(url)
     acc.count('evaluations')
     acc.count('transitions')
     acc.outcome(('manifest', r.status))
-    rec = {'kind': 'manifest', 'template': template, 'mode': mode, 'drm': drm, 'stream': stream,
+    rec = {'kind': 'manifest', 'template': template, 'mode': mode, 'drm': drm, 'stream': stream, 'version': ver,
            'sel': {k: sorted(v) for k, v in sel.items()}}
     if r.status != 200:
         return acc
@@ -324,7 +327,7 @@ def manifest_protection(item):
     except Exception:
         return acc
     acc.count('traces')
-    acc.state((template, mode, drm, stream))
+    acc.state((template, mode, drm, stream, ver))
     st = crawl.Stored.fixture(stream)
 
     def bad(clause, text):
@@ -340,7 +343,7 @@ def manifest_protection(item):
             if cps:
                 bad('clear-track-protected', f'{rep.id} is clear but carries ContentProtection')
             continue
-        acc.nontriv((template, mode, drm, rep.id))
+        acc.nontriv((template, mode, drm, rep.id, ver))
         kids = c10.track_kids(stream, rep.id)
         schemes = {}
         for cp in cps:
@@ -357,6 +360,12 @@ def manifest_protection(item):
         ml_id = 'urn:uuid:5e629af5-38da-4063-8977-97ffbd9902d4'
         have = {'playready': any(s in pr_ids for s in schemes), 'clearkey': any(s in ck_ids for s in schemes),
                 'marlin': ml_id in schemes}
+        # PlayReady 1.0 is announced with the PIFF system id, later versions with the PlayReady one
+        if have['playready'] and 'playready' in sel:
+            v10 = 'urn:uuid:79f0049a-4098-8642-ab92-e65be0885f95' in schemes
+            if v10 != (ver == '1.0'):
+                bad('playready-scheme-id', f'{rep.id}: PlayReady version {ver} announced with '
+                    f'{[s for s in schemes if s in pr_ids]}')
         for sysname in ('playready', 'clearkey', 'marlin'):
             if have[sysname] != (sysname in sel):
                 bad(f'systems|{sysname}', f'{rep.id}: {sysname} ContentProtection present={have[sysname]}, '
@@ -388,9 +397,11 @@ def manifest_protection(item):
                 any_ps = any(e.find('{urn:mpeg:cenc:2013}pssh') is not None
                              for s2, els2 in schemes.items() for e in els2
                              if (s2 in pr_ids) == (sysname == 'playready') and (s2 in ck_ids) == (sysname == 'clearkey'))
-                # PlayReady 1.0 (PIFF) mode only allows mspr:pro, so a missing cenc:pssh is tolerated there
-                if any_ps != ('cenc' in locs) and not (sysname == 'playready' and 'cenc' in locs and not any_ps):
-                    bad(f'cenc-location|{sysname}', f'{rep.id}: cenc:pssh present={any_ps}, locations {sorted(locs)}')
+                # PlayReady 1.0 (PIFF) only allows mspr:pro in the manifest
+                want_ps = 'cenc' in locs and not (sysname == 'playready' and ver == '1.0')
+                if any_ps != want_ps:
+                    bad(f'cenc-location|{sysname}', f'{rep.id}: cenc:pssh present={any_ps}, locations {sorted(locs)}, '
+                        f'PlayReady version {ver}')
                 if sysname == 'playready' and (pro is not None) != ('pro' in locs):
                     bad('pro-location', f'{rep.id}: mspr:pro present={pro is not None}, locations {sorted(locs)}')
                 sid = c10.PLAYREADY if sysname == 'playready' else c10.CLEARKEY
@@ -535,6 +546,15 @@ def run(ctx):
             if ctx.quick and template not in ('hand_made', 'manifest_e') and len(sel) > 1 and drm != 'all':
                 continue
             items.append(('manifest', (template, mode, drm, sel)))
+    # the PlayReady version dimension (scheme id, PIFF mode without cenc:pssh)
+    for ver in ('1.0', '2.0', '3.0', '4.0'):
+        if ctx.quick and ver in ('2.0', '3.0'):
+            continue
+        for template, mode in (('hand_made', 'live'), ('hand_made', 'vod'), ('manifest_e', 'live')):
+            for drm, sel in use:
+                if 'playready' not in sel or (ctx.quick and len(sel) > 1 and drm != 'all'):
+                    continue
+                items.append(('manifest', (template, mode, drm, sel, 'bbb', ver)))
     # a track with two key ids (synmk_v1_enc)
     for template, mode in (('hand_made', 'live'), ('hand_made', 'vod'), ('manifest_e', 'live')):
         for drm, sel in use:
@@ -570,5 +590,6 @@ def replay(record):
         acc = clearkey_requests(None)
     else:
         acc = manifest_protection((record['template'], record['mode'], record['drm'],
-                                   {a: set(b) for a, b in record['sel'].items()}, record.get('stream', 'bbb')))
+                                   {a: set(b) for a, b in record['sel'].items()}, record.get('stream', 'bbb'),
+                                   record.get('version')))
     return [(s, v[0]['what']) for s, v in acc.viol.items()]
